@@ -391,6 +391,76 @@ func runC14(tier string, seed int64) *Outcome {
 				if rec.Code != 200 {
 					res.Inconclusive = fmt.Sprintf("positive control failed: cancel with a valid token (cookie) answered %d", rec.Code)
 				}
+				// state kept by the server between requests must not open a route: every invalid request is repeated directly
+				// after the SAME request was answered for a valid token (carried in the header or in the cookie).
+				// (the asynchronous effects of the valid cancel above have to be over first: logical quiescence)
+				if _, err := env.sys.Quiesce(core.QuiesceOpts{Watchdog: 20 * time.Second}); err != nil {
+					res.Inconclusive = "no quiescence after the positive control: " + err.Error()
+				}
+				for _, rt := range env.routes {
+					if strings.HasPrefix(rt[1], "/debug") || strings.Contains(rt[1], "cancel") {
+						continue
+					}
+					for _, primer := range []string{"header", "cookie"} {
+						for _, cl := range classes {
+							if !cl.judged {
+								continue
+							}
+							for _, transport := range []string{"header", "cookie", "query"} {
+								if (cl.raw != "" || cl.token == "") && transport != "header" {
+									continue
+								}
+								if strings.Contains(rt[1], "schedule") && (transport != "header" || len(cl.name) % 3 != 0) {
+									continue // every valid schedule request creates a job: a sample of the classes suffices here
+								}
+								preq := env.request(rt[0], rt[1])
+								if primer == "header" {
+									preq.Header.Set("Authorization", "Bearer "+env.valid)
+								} else {
+									preq.AddCookie(&http.Cookie{Name: "jwt", Value: env.valid})
+								}
+								prec := httptest.NewRecorder()
+								env.h.ServeHTTP(prec, preq)
+								if prec.Code == 401 {
+									res.Inconclusive = fmt.Sprintf("positive control failed: %s %s with a valid token via %s answered 401", rt[0], rt[1], primer)
+								}
+								before := env.digest()
+								req := env.request(rt[0], rt[1])
+								switch transport {
+								case "header":
+									if cl.raw != "" {
+										req.Header.Set("Authorization", cl.raw)
+									} else if cl.token != "" {
+										req.Header.Set("Authorization", "Bearer "+cl.token)
+									}
+								case "cookie":
+									req.AddCookie(&http.Cookie{Name: "jwt", Value: cl.token})
+								case "query":
+									q := req.URL.Query()
+									q.Set("jwt", cl.token)
+									req.URL.RawQuery = q.Encode()
+								}
+								rec := httptest.NewRecorder()
+								env.h.ServeHTTP(rec, req)
+								res.Evaluations++
+								res.Situations = append(res.Situations, fmt.Sprintf("after-valid(%s) %s %s %s/%s profiling=%v", primer, rt[0], rt[1], strings.Split(cl.name, "-")[0], transport, profiling))
+								if rec.Code != 401 {
+									find("C14:request-without-valid-token-not-401", "%s %s with credential %q via %s answered %d directly after the same request had been answered for a valid token carried in the %s", rt[0], rt[1], cl.name, transport, rec.Code, primer)
+								}
+								body := rec.Body.String()
+								for _, mk := range env.markers {
+									if mk != "" && strings.Contains(body, mk) {
+										find("C14:rejected-request-reveals-data", "%s %s with credential %q via %s (directly after a valid request via %s): the response body contains %q", rt[0], rt[1], cl.name, transport, primer, mk)
+										break
+									}
+								}
+								if d := env.digest(); !reflect.DeepEqual(d, before) {
+									find("C14:rejected-request-had-an-effect", "%s %s with credential %q via %s changed the runner state: %v -> %v", rt[0], rt[1], cl.name, transport, before.Jobs, d.Jobs)
+								}
+							}
+						}
+					}
+				}
 				var nj []string
 				for k, v := range notJudged {
 					nj = append(nj, fmt.Sprintf("%s x%d", k, v))
@@ -418,7 +488,7 @@ func runC14(tier string, seed int64) *Outcome {
 func init() {
 	register(&Check{
 		ID: "C14", Level: "exploration",
-		Rule:        "exhaustive product over: every route pattern discovered with chi.Walk on the real router (hook H3; the run is invalid if fewer than the six known API routes are found) x methods {GET,POST,PUT,PATCH,DELETE,HEAD,OPTIONS} x ~27 invalid credential classes (none, empty bearer, garbage, 2 / 4 segments, other secret, truncated / bit-flipped signature, payload modified after signing, alg none (3 spellings / signatures), HS384 / HS512 with the right secret, RS256 / ES256 headers, expired, not yet valid, basic auth, the secret itself, random single-character edits of a valid token) x transports {Authorization header, cookie jwt, query ?jwt=} x profiling on/off x 3 secrets (16, 33, 100+ bytes incl. non-ASCII), against the real http.Handler of server.NewServer on a runner that holds a running, a waiting and a finished job with log output. Requests are built to be effective if accepted (schedule an existing pipeline, cancel the running job, read real logs). Oracle: status 401, body free of planted markers (job ids, pipeline / task names, variable values, log lines), runner state (jobs, flags, pipeline list) unchanged; /debug/* answers 404 with profiling off; positive control with a valid token via header and cookie. Borderline classes (iat in the future, lower-case 'bearer') are sent and their outcome recorded but never judged. A situation is (method, pattern, registered?, credential family, transport, profiling)",
+		Rule:        "exhaustive product over: every route pattern discovered with chi.Walk on the real router (hook H3; the run is invalid if fewer than the six known API routes are found) x methods {GET,POST,PUT,PATCH,DELETE,HEAD,OPTIONS} x ~27 invalid credential classes (none, empty bearer, garbage, 2 / 4 segments, other secret, truncated / bit-flipped signature, payload modified after signing, alg none (3 spellings / signatures), HS384 / HS512 with the right secret, RS256 / ES256 headers, expired, not yet valid, basic auth, the secret itself, random single-character edits of a valid token) x transports {Authorization header, cookie jwt, query ?jwt=} x profiling on/off x 3 secrets (16, 33, 100+ bytes incl. non-ASCII), against the real http.Handler of server.NewServer on a runner that holds a running, a waiting and a finished job with log output. Requests are built to be effective if accepted (schedule an existing pipeline, cancel the running job, read real logs). Oracle: status 401, body free of planted markers (job ids, pipeline / task names, variable values, log lines), runner state (jobs, flags, pipeline list) unchanged; /debug/* answers 404 with profiling off; positive control with a valid token via header and cookie; every judged invalid request is also repeated directly after the same request was answered for a valid token (header / cookie), so that state kept between requests (caches, sessions) cannot open a route. Borderline classes (iat in the future, lower-case 'bearer') are sent and their outcome recorded but never judged. A situation is (method, pattern, registered?, credential family, transport, profiling)",
 		Assumptions: []string{"the listener's bind address and TLS are outside the handler and not examined"},
 		Custom:      runC14,
 		MinDistinct: 200,
